@@ -1,7 +1,9 @@
 """C14 — principals survive every representation; keys never cross-verify.
 Tie: differential correspondence with real Ed25519 / RSA keys (Sig.v, Did.v, Crypto.v
-evaluated by vm_compute on the inputs the harness ran through the implementation; the
-third-party codecs and the signature schemes enter the model as observed oracle tables),
+evaluated by vm_compute on the inputs the harness ran through the implementation; the base
+encodings are concrete model functions (BaseEnc.v / BaseDec.v) whose results must equal what the Go
+base58 / multibase libraries answered on every string of the run and on generated near misses;
+x509 and the signature schemes enter the model as observed oracle tables),
 plus the property itself checked directly on the implementation's observations."""
 import glob, json, os, re, shutil, subprocess, sys
 import vlib
@@ -19,6 +21,12 @@ KIND_KEYS = {
     "sig": ("sig-framing-mismatch", "signature Code()/Size()/Raw() differ from the model on these bytes"),
     "new-signature": ("new-signature-mismatch", "NewSignature bytes differ from varint(code) ++ varint(len raw) ++ raw"),
     "new-non-standard": ("new-signature-mismatch", "NewNonStandard bytes differ from the model"),
+    "signer-parse": ("signer-parse-mismatch", "signer.Parse accepts/rejects or re-encodes differently from the model (multibase.Decode of the key string, then Decode)"),
+    "signer-format": ("signer-format-mismatch", "signer.Format is not multibase base64pad of Encode()"),
+    "base-b58dec": ("base-decode:b58", "go-multibase/mr-tron base58btc Decode differs from BaseDec.b58dec on this string"),
+    "base-multibase": ("base-decode:multibase", "multibase.Decode differs from BaseDec.mb_decode on this string"),
+    "base-b58enc": ("base-decode:b58-encode", "multibase.Encode(Base58BTC) differs from BaseEnc.b58enc on these bytes"),
+    "base-mb64enc": ("base-decode:mb64-encode", "multibase.Encode(Base64pad) differs from BaseDec.mb64enc on these bytes"),
 }
 
 
@@ -92,35 +100,44 @@ def check(run):
                       dict(log=env["props_log"][-1500:]), no_input=True)
 
     pc = stats["principal_cases"]
-    n_prin = pc["sign"] + sum(pc["verifier_decode"].values()) + pc["verifier_parse"] + sum(pc["signer_decode"].values()) + pc["wrap"]
+    n_prin = (pc["sign"] + sum(pc["verifier_decode"].values()) + pc["verifier_parse"] + sum(pc["signer_decode"].values()) + pc["wrap"]
+              + pc["signer_parse"].get("ok", 0) + pc["signer_parse"].get("error", 0) + pc["signer_format"])
+    be = stats["base_encodings"]
     sf = stats["sig_frames"]
     n_eval = (stats["verify_cases"] + n_prin + stats["did_strings"] + stats["did_bytes"] + sf["inputs"]
-              + sf["new_signature"] + sf["new_non_standard"] + stats["principal_roundtrip_checks"])
+              + sf["new_signature"] + sf["new_non_standard"] + stats["principal_roundtrip_checks"] + be["pairs"])
     accepted = sum(v.get("accepted", 0) for v in stats["verify_histogram"].values())
     did_ok = sum(v.get("key", 0) + v.get("other", 0) for v in stats["did_histogram"].values())
     run.cov.update(
         evaluations=n_eval,
         distinct_nontrivial=accepted + did_ok + pc["verifier_decode"].get("ok", 0) + pc["signer_decode"].get("ok", 0)
-                            + sf["classes"].get("code ok, raw non-empty", 0),
+                            + pc["signer_parse"].get("ok", 0) + sf["classes"].get("code ok, raw non-empty", 0)
+                            + sum(v.get("accepted", 0) for k, v in be["by_function"].items() if k in ("base-b58dec", "base-multibase")),
         rule="%d Ed25519 keys from the seed + %d stored RSA-2048 keys; every (verifier, signing key, message) triple with the "
              "signature of the same and of another message, through 4 ways of obtaining the verifier (signer.Verifier, Decode, "
              "Parse(did), Wrap); signature-code substitutions, truncated/extended/bit-flipped raw, re-sized and truncated frames; "
              "Decode/Parse of every key encoding under 14 byte-level mutations and the other algorithm's decoder; Wrap; "
              "%d DID strings from a grammar (real and random did:key of both kinds, other tags, generic payloads, 13 methods x ids "
              "incl. empty/non-ASCII/arbitrary bytes, %s near-miss strings) and %d DID byte strings; %d arbitrary signature byte "
-             "strings (all strings of length <= 3 over 9 boundary bytes + random frames). non-trivial = accepted signatures + "
-             "accepted DIDs + accepted key encodings + frames with a readable code and non-empty raw"
-             % (stats["keys"]["ed25519"], stats["keys"]["rsa"], stats["did_strings"], "37", stats["did_bytes"], sf["inputs"]),
+             "strings (all strings of length <= 3 over 9 boundary bytes + random frames); signer.Parse of every key in 12 multibase "
+             "forms, padding/alphabet/line-break/dropped-bit near misses and single edits; %d (input, result) pairs of the Go base58 / "
+             "multibase codecs (every string the run touched, fixed near misses: non-alphabet characters, empty, only/leading '1's, "
+             "blanks, unicode, missing/extra padding, url alphabet, length 1 mod 4; random byte strings in 12 bases and single edits; "
+             "strings of > 800 characters). non-trivial = accepted signatures + accepted DIDs + accepted key encodings + accepted key "
+             "strings + frames with a readable code and non-empty raw + strings the Go decoders accepted"
+             % (stats["keys"]["ed25519"], stats["keys"]["rsa"], stats["did_strings"], "37", stats["did_bytes"], sf["inputs"], be["pairs"]),
         samples=stats["samples"][:6],
         verify_histogram=stats["verify_histogram"], did_histogram=stats["did_histogram"],
         principal_cases=pc, sig_frames=sf, keys=stats["keys"],
-        base58_law_checked=stats["base58_law_checked"], direct_checks=stats["principal_roundtrip_checks"])
+        base58_law_checked=stats["base58_law_checked"], direct_checks=stats["principal_roundtrip_checks"], base_encodings=be)
     run.assumptions += [
         "SYMBOLIC CRYPTO (Section hypotheses sig_unforgeable, raw_sig_inj, sign_correct of Crypto.v): crypto/ed25519 and crypto/rsa "
         "PKCS#1 v1.5 + SHA-256 accept a raw signature under a public key for exactly the message and key that produced it; "
         "signatures are deterministic. The run validates this only on the generated keys/messages (all pairs).",
-        "base58btc / multibase codecs (go-multibase, mr-tron/base58): decode(encode b) = b, checked on %d values this run; "
-        "x509 PKCS#1 parsing: oracle tables observed by the harness" % stats["base58_law_checked"],
+        "base58btc / multibase codecs (go-multibase, mr-tron/base58, encoding/base64, go-base32): no longer assumed — concrete functions "
+        "of BaseEnc.v / BaseDec.v with proved round trips; their agreement with the Go libraries is checked on %d (input, result) pairs this "
+        "run (multibase prefixes 0 c C t T k K and the emoji base are not modelled: %d such strings skipped); "
+        "x509 PKCS#1 parsing: oracle tables observed by the harness" % (be["pairs"], be["unmodelled_prefix_skipped"]),
         "go-varint ReadUvarint/FromUvarint/UvarintSize behave as Varint.v (minimal encodings below 2^63) — exercised by the framing cases",
         "harness observation of the exported API (did, principal/*, ucan/crypto/signature)",
         "targets the tree WITH fixes/C14_did_key_alias.diff (did.Decode rejects the generic 0x0d1d encoding of method \"key\")",
@@ -130,7 +147,7 @@ def check(run):
 def _coq_eval(term, wd):
     os.makedirs(wd, exist_ok=True)
     f = os.path.join(wd, "replay_case.v")
-    open(f, "w").write("From Ucanto Require Import Base Sig Did Crypto Check_C14.\nOpen Scope N_scope.\n"
+    open(f, "w").write("From Ucanto Require Import Base Sig BaseEnc BaseDec Did Crypto Check_C14.\nOpen Scope N_scope.\n"
                        "Definition R := Eval vm_compute in (%s).\nPrint R.\n" % term)
     rc, out, _ = vlib.coqc(f)
     return vlib.parse_print(out, "R") if rc == 0 else "coqc failed: " + out[-300:]
@@ -146,6 +163,29 @@ def replay(path):
     kind = rp.get("kind")
     still = None
     out = ""
+    if str(kind).startswith("base-"):
+        # the Go library now against the concrete Coq function now
+        rc, out, _ = vlib.run_harness(hbin, ["c14-replay", "base", str(rp["which"]), rp["input_hex"]])
+        print("library now: " + out.strip())
+        m = re.search(r"ok=(\w+) result=([0-9a-f]*)", out)
+        exp = "None" if not m or m.group(1) != "true" else ('(Some (hx "%s"))' % m.group(2) if m.group(2) else "(Some (@nil N))")
+        inp = '(hx "%s")' % rp["input_hex"] if rp["input_hex"] else "(@nil N)"
+        vlib.coq_build()
+        r = _coq_eval("check_base (%d, %s, %s)" % (rp["which"], inp, exp), os.path.join(vlib.WORK, "C14", "replay"))
+        print("Coq function = library answer: %s" % r)
+        print(json.dumps({k: v for k, v in rp.items() if k != "coq"}, indent=1)[:1500])
+        if r != "true":
+            print("=> still reproduces"); return 1
+        print("=> does not reproduce on this tree"); return 0
+    if kind == "signer-parse":
+        rc, out, _ = vlib.run_harness(hbin, ["c14-replay", "signer-parse", str(rp["alg"]), rp["string_hex"]])
+        print("implementation now: " + out.strip())
+        print("recorded: ok=%s (%s)" % (rp.get("ok"), rp.get("what")))
+        now_ok = "Parse: ok" in out
+        print(json.dumps({k: v for k, v in rp.items() if k != "coq"}, indent=1)[:1500])
+        if now_ok == bool(rp.get("ok")):
+            print("=> still reproduces (same answer as recorded)"); return 1
+        print("=> does not reproduce on this tree"); return 0
     if "string_hex" in rp:
         rc, out, _ = vlib.run_harness(hbin, ["c14-replay", "did-parse", rp["string_hex"]])
         kind = kind or "did-parse"
